@@ -20,8 +20,11 @@ import (
 
 func init() { extraCommands["watcher"] = cmdWatcher }
 
+// number of "config change detected" log lines so far (the watcher logs one before each hand-off)
+var detectLines int64
+
 type watchOp struct {
-	Op   string `json:"op"` // write | pause | resume | cancel
+	Op   string `json:"op"` // write | pwrite | trunc | pause | resume | cancel | sleep
 	File string `json:"file,omitempty"`
 }
 
@@ -70,7 +73,7 @@ func runWatchScenario(root string, sc watchScenario) (watchLine, error) {
 	line := watchLine{Ev: "watcher", ID: sc.ID, Writes: []string{}}
 	files := map[string]bool{"hidi-config/user/keyboard/zz_barrier1.toml": true, "hidi-config/factory/gamepad/zz_barrier2.toml": true}
 	for _, op := range sc.Ops {
-		if op.Op == "write" || op.Op == "trunc" {
+		if op.Op == "write" || op.Op == "trunc" || op.Op == "pwrite" {
 			files[op.File] = true
 		}
 	}
@@ -115,9 +118,38 @@ func runWatchScenario(root string, sc watchScenario) (watchLine, error) {
 		}
 	}()
 	cancelled := false
+	// drained: every event-raising toml write so far has had its log line, i.e. has left the kernel queue
+	drained := true
 	for _, op := range sc.Ops {
 		switch op.Op {
+		case "pwrite":
+			// paced write: wait for the watcher's log line of this very write, so that the next write of the
+			// same file cannot be merged with it by the kernel; recorded as the file followed by "SYNC"
+			n0 := atomic.LoadInt64(&detectLines)
+			if err := appendOnce(filepath.Join(root, op.File)); err != nil {
+				return line, err
+			}
+			if !cancelled {
+				line.Writes = append(line.Writes, op.File)
+			}
+			isToml := strings.HasSuffix(strings.ToLower(op.File), ".toml") && !strings.Contains(op.File, "/nested/")
+			if cancelled || !drained || atomic.LoadInt32(&paused) == 1 || !isToml {
+				if isToml {
+					drained = false
+				}
+				break
+			}
+			deadline := time.Now().Add(3 * time.Second)
+			for atomic.LoadInt64(&detectLines) == n0 && time.Now().Before(deadline) {
+				time.Sleep(200 * time.Microsecond)
+			}
+			if atomic.LoadInt64(&detectLines) > n0 {
+				line.Writes = append(line.Writes, "SYNC")
+			} else {
+				drained = false
+			}
 		case "write":
+			drained = drained && (strings.Contains(op.File, "/nested/") || !strings.HasSuffix(strings.ToLower(op.File), ".toml"))
 			if err := appendOnce(filepath.Join(root, op.File)); err != nil {
 				return line, err
 			}
@@ -125,6 +157,7 @@ func runWatchScenario(root string, sc watchScenario) (watchLine, error) {
 				line.Writes = append(line.Writes, op.File)
 			}
 		case "trunc": // in-place modification that leaves the file empty: open with O_TRUNC (one IN_MODIFY)
+			drained = drained && (strings.Contains(op.File, "/nested/") || !strings.HasSuffix(strings.ToLower(op.File), ".toml"))
 			fp := filepath.Join(root, op.File)
 			if st, err := os.Stat(fp); err == nil && st.Size() == 0 {
 				if err := appendOnce(fp); err != nil {
@@ -143,6 +176,7 @@ func runWatchScenario(root string, sc watchScenario) (watchLine, error) {
 				line.Writes = append(line.Writes, op.File)
 			}
 		case "pause":
+			drained = false
 			atomic.StoreInt32(&paused, 1)
 			line.Late = true
 		case "resume":
@@ -174,6 +208,10 @@ func runWatchScenario(root string, sc watchScenario) (watchLine, error) {
 		min, prev := 0, ""
 		for _, w := range line.Writes {
 			if strings.Contains(w, "/nested/") { // raises no event on the four watches
+				continue
+			}
+			if w == "SYNC" {
+				prev = w
 				continue
 			}
 			if strings.HasSuffix(strings.ToLower(w), ".toml") && w != prev {
@@ -211,7 +249,10 @@ func cmdWatcher(args []string) error {
 		return fmt.Errorf("usage: verifh watcher <scenarios.json> <scratchdir> <out.ndjson>")
 	}
 	go func() {
-		for range logger.Messages {
+		for m := range logger.Messages {
+			if strings.Contains(string(m), "config change detected") {
+				atomic.AddInt64(&detectLines, 1)
+			}
 		}
 	}()
 	raw, err := os.ReadFile(args[0])
